@@ -237,6 +237,16 @@ class World(BaseWorld):
         t["yielded"] += 1
         self.note("sentences")
         self.check_sentence(sentence, g, t["start"])
+        # sentences already handed out stay what they were while the generator moves on
+        kept = t.setdefault("kept", [])
+        for old, old_repr in kept:
+            if repr(old) != old_repr or B.public_scan_problem(old):
+                raise self.vio("sentence-changed-later", "a sentence yielded earlier is no longer the diagram "
+                               "it was when it was yielded (now %s)" % repr(old)[:200])
+        kept.append((sentence, repr(sentence)))
+        if len(kept) > 5:
+            del kept[1]
+        self.note("kept_sentences_rechecked", len(kept) - 1)
         if g["real"].productions is None or repr(g["real"].productions) != g["fp"]:
             raise self.vio("grammar-changed", "generate changed the grammar's productions")
         return "sentence of %d boxes" % len(sentence)
